@@ -5,7 +5,7 @@ from ..summary import Item, items, is_ok, bv
 from . import c05
 
 ID = 'C16'
-ENGINE_B = {'template': 't_inherit', 'kinds': ['layout_'], 'max_quick': 6, 'max_thorough': 24, 'abi': True}
+ENGINE_B = {'template': 't_inherit', 'kinds': ['layout_'], 'max_quick': 12, 'max_thorough': 64, 'abi': True}
 CC = c05.CC
 EXPLANATION = ('Three templates are executed symbolically: t_impl (impl function), t_vft (vftable block incl. placeholder slots) and '
                't_inherit (the same virtual function seen through derived tables).  The calling-convention attribute ranges over '
